@@ -9,7 +9,7 @@ RULE = ("cases = every collinear tree within the bounds (chains with the root at
         "a sample of two-armed roots, mirror-symmetric ones included, where the Monte-Carlo pair term is exactly zero), levels 3-4 again at 2^20 / 2^21 from the origin, each at one of 7 placements and 3 length units, a third of them renumbered so that children precede their parents, through get_volume and the "
         "feature extractor; plus random trees of any shape on a lattice at levels 1 and 2; non-trivial = at least two nodes whose balls overlap or "
         "unequal radii; distinct by (tree, level)")
-UNITS = [1.0, 0.5, 0.37]
+UNITS = [1.0, 0.5, 0.37, 1e-6, 2.5e4]          # the last two only in the extreme-units stage
 DIRS = [(1, 0, 0), (0, 0, -1), (2 / 3, 2 / 3, 1 / 3), (0.6, 0.8, 0), (0.3, -0.5, 0.81), (0, 1, 0), (-2 / 7, 3 / 7, 6 / 7)]
 ORGS = [(0, 0, 0), (5, -3, 2), (0, 0, 0), (-3, 4, 0.5), (1.5, -2.25, 3.0), (1, 1, 1), (0, 0, 0)]       # small offsets: the tree stores float32 coordinates
 # far placements: axis directions at 2^20 / 2^21, where lattice coordinates in units 1 and 0.5 are still exact in float32
@@ -34,6 +34,8 @@ def execute(c):
     if c["kind"] == "collinear":
         d = np.array(DIRS[c["place"]], dtype=np.float64); d /= np.linalg.norm(d)
         o = np.array(ORGS[c["place"]], dtype=np.float64)
+        if c["unit"] >= 3:
+            o = o * u            # the tree stores float32 coordinates: the offset is scaled with the unit, or it would swamp the spacings
         xyz = [o + d * (row[1] * u) for row in t]
     else:
         xyz = [np.array(p, dtype=np.float64) * u for p in c["xyz"]]
@@ -50,6 +52,12 @@ def execute(c):
     is_chain = all(sum(1 for row in t if row[0] == i) <= 1 for i in range(len(t)))
     if c["level"] >= 3 and is_chain and lib.vid(c) % 5 == 0:
         v = float(extract_feature(tree).get("volume")[0])          # default accuracy; no pair term on a chain
+    elif lib.vid(c) % 5 == 1 and c["level"] <= 4:
+        # one extractor object asked at two explicit accuracy levels, and in the list / dict forms: the second answer is the one judged
+        fe = extract_feature(tree)
+        fe.get("volume", accuracy=(1 if c["level"] != 1 else 2))
+        fe.get([("volume", {"accuracy": 3 if c["level"] != 3 else 2})])
+        v = float(fe.get({"volume": {"accuracy": c["level"]}})["volume"][0]) if lib.vid(c) % 2 else float(fe.get("volume", accuracy=c["level"])[0])
     else:
         v = float(get_volume(tree, accuracy=c["level"]))
     exp = sum(Fraction(p[0], p[1]) for p in c["parts"])
@@ -111,6 +119,9 @@ def run(ctx):
     far = [dict(c, place=7 + k % 2, unit=k % 2) for k, c in enumerate(deep[:: (3 if q else 1)])]
     p = ctx.write_cases("far-from-origin", far)
     ctx.run_cases("far-from-origin", far, p, execute, "Judge_VolTree", keyfn, nontrivial, per_case_timeout=300)
+    ext = [dict(c, unit=3 + k % 2) for k, c in enumerate(deep[:: (3 if q else 1)])]
+    p = ctx.write_cases("extreme-units", ext)
+    ctx.run_cases("extreme-units", ext, p, execute, "Judge_VolTree", keyfn, nontrivial, per_case_timeout=300)
     lc = lattice_cases(ctx, 150 if q else 2000)
     p = ctx.write_cases("lattice", lc)
     ctx.run_cases("lattice", lc, p, execute, "Judge_VolTree", keyfn, nontrivial)
